@@ -60,6 +60,52 @@ class Msg:
         return "Msg(%r)" % self.msgid
 
 
+class SeqObj:
+    """Sized container whose __iter__ is a generator (no __length_hint__,
+    not copyable)."""
+
+    def __init__(self, items):
+        self._items = items
+
+    def __len__(self):
+        return len(self._items)
+
+    def __iter__(self):
+        for x in self._items:
+            yield x
+
+    def __repr__(self):
+        return "SeqObj(%r)" % (self._items,)
+
+
+class IntSub(int):
+    """int subclass with a label as string form (IntEnum-like)."""
+
+    def __new__(cls, n, label):
+        inst = int.__new__(cls, n)
+        inst.label = label
+        return inst
+
+    def __str__(self):
+        return self.label
+
+    def __repr__(self):
+        return "IntSub(%d, %r)" % (int(self), self.label)
+
+
+class FloatSub(float):
+    def __new__(cls, x, label):
+        inst = float.__new__(cls, x)
+        inst.label = label
+        return inst
+
+    def __str__(self):
+        return self.label
+
+    def __repr__(self):
+        return "FloatSub(%r, %r)" % (float(self), self.label)
+
+
 class AttrObj:
     def __init__(self, d):
         self.__dict__.update(d)
@@ -106,6 +152,17 @@ def instantiate(d, encoding="utf-8"):
         return (x for x in items)
     if k == "range":
         return range(d[1])
+    if k == "iter":
+        return iter([instantiate(x, encoding) for x in d[1]])
+    if k == "userlist":
+        import collections
+        return collections.UserList(instantiate(x, encoding) for x in d[1])
+    if k == "seqobj":
+        return SeqObj([instantiate(x, encoding) for x in d[1]])
+    if k == "intsub":
+        return IntSub(d[1], d[2])
+    if k == "floatsub":
+        return FloatSub(d[1], d[2])
     if k in ("dict", "items", "keys", "attrobj", "itemobj"):
         dd = {kk: instantiate(v, encoding) for kk, v in d[1]}
         if k == "dict":
